@@ -6,6 +6,7 @@ import Proofs.OalTight
 import Proofs.OalFuel
 import Proofs.OalMinimal
 import Proofs.OalText
+import Proofs.OalPrecTie
 
 /-!
   C07 — OAL parsing follows the precedence table and ignores layout.   (TOKEN level)
@@ -20,13 +21,14 @@ import Proofs.OalText
   lists); `render` writes no parenthesis that could be left out; TEXT → TREE: the character-level lexer model
   composed with the parser model (`text_roundtrip`).  The last section re-exports builder-A2's layout theorems.
   Kinds of theorems (tools/meta/C07.json `theorem_kinds`): `table_wellformed`, `prec_facts`, `prec_order`,
-  `table_stmt_wellformed`, `grammar_shape`, `expr_grammar_shape`, `name_classes` are decisions over generated /
-  literal tables, not property theorems; the `_oal` / `_fuel` forms and `left_assoc`, `tighter_binds`,
+  `binOps_as_in_source`, `table_stmt_wellformed`, `grammar_shape`, `expr_grammar_shape`, `name_classes` are decisions over generated /
+  literal tables, not property theorems (`prec_table_as_in_source` and the two `*_row_*_as_in_source` theorems are
+  for-all ties to the generated `precRows`); the `_oal` / `_fuel` forms and `left_assoc`, `tighter_binds`,
   `unary_binds_tightest`, `*_reject_not_exhaustion`, `render_erase_paren`, `text_roundtrip_blanks` are corollaries.
 -/
 namespace PyxProps.C07
 open Pyx.Oal
-open Pyx.Gen.OalPrec (table binOps binProds unOps unaryProd unaryRow unaryPrecName stmtProds exprProds kwIdent1 kwIdent2
+open Pyx.Gen.OalPrec (table precRows binOps binProds unOps unaryProd unaryRow unaryPrecName stmtProds exprProds kwIdent1 kwIdent2
   kwIdent3 kwIdent4)
 
 /-! ## 1. the precedence round trip, for ANY well-formed table and ANY tree (unbounded depth) -/
@@ -93,6 +95,26 @@ theorem prec_order :
   cases h1; cases h2; cases h3; cases h4; cases h5; cases h6
   rw [hf.2.2.2.2.2.2.1]
   decide
+
+/-- the generated operator list is the generic yacc reading (`precInterp`, Proofs/OalPrecTie.lean) of the generated
+    `OALParser.precedence` rows for the generated alternatives `expression : expression TOK expression`
+    (a check of two generated tables against each other; the for-all statement is `prec_table_as_in_source`) -/
+theorem binOps_as_in_source : binOps = precInterp precRows (binOps.map (·.1)) := by decide +kernel
+
+/-- prec_table_as_in_source: for EVERY token kind, the level and associativity the parser model works with
+    (`table.bin`) are the 1-based index and the associativity of the row of `OALParser.precedence` that lists the
+    token's PLY name when the token is one of the alternatives `expression TOK expression`, and "not a binary
+    operator" for every other token; the model's unary operators are the alternatives of `unary_operator`, and the
+    level of `unary_operator expression` is the row named UNARY (right-associative).  Moving a name to another row,
+    reordering rows or changing a row's associativity in oal.py changes `precRows` and with it this equation. -/
+theorem prec_table_as_in_source (k : Kind) :
+    table.bin k = (if k ∈ binOps.map (·.1) then rowOf precRows k.name 1 else none) ∧
+    table.un k = unOps.contains k ∧
+    rowOf precRows "UNARY" 1 = some (table.ulevel, .right) := by
+  refine ⟨?_, rfl, by decide +kernel⟩
+  have h := ofLists_precInterp precRows unOps unaryProd.1 k (binOps.map (·.1))
+  rw [← binOps_as_in_source] at h
+  exact h
 
 /-- theorem 1 at the generated table: no hypothesis about the table is left -/
 theorem prec_roundtrip_oal (e : Expr) (hok : e.Ok table) (rest : List Tok) (hs : Stops table 0 rest) :
@@ -172,6 +194,37 @@ theorem paren_kept_as_operand_unary (t : Tbl) (wf : t.WF) (e : Expr) (o : Tok) (
     (t.ulevel ≤ e.level t → parseExprTop t (o :: (render t e 0 ++ rest)) = some (.un o e, rest)) := by
   rw [render_zero]
   exact ⟨parse_un_text wf ho he (Or.inr rfl) hs, fun hl => parse_un_text wf ho he (Or.inl ⟨rfl, hl⟩) hs⟩
+
+/-- at the parser: two operators that `OALParser.precedence` lists in ONE row declared `left` group to the left,
+    `a ∘ b ∘' c` = `(a ∘ b) ∘' c`, for all operand trees — the hypotheses speak about the generated ROWS only -/
+theorem same_row_groups_left_as_in_source (a b c : Expr) (o o' : Tok) (lv : Nat)
+    (ho : o.kind ∈ binOps.map (·.1)) (ho' : o'.kind ∈ binOps.map (·.1))
+    (hr : rowOf precRows o.kind.name 1 = some (lv, .left)) (hr' : rowOf precRows o'.kind.name 1 = some (lv, .left))
+    (ha : a.Ok table) (hb : b.Ok table) (hc : c.Ok table) (rest : List Tok) (hs : Stops table 0 rest) :
+    parseExprTop table (render table a lv ++ o :: (render table b (lv + 1) ++ o' :: (render table c (lv + 1) ++ rest))) =
+      some (.bin (.bin a o b) o' c, rest) := by
+  have h1 := (prec_table_as_in_source o.kind).1
+  have h2 := (prec_table_as_in_source o'.kind).1
+  rw [if_pos ho, hr] at h1
+  rw [if_pos ho', hr'] at h2
+  exact left_assoc table table_wellformed a b c o o' lv h1 h2 ha hb hc rest hs
+
+/-- at the parser: an operator of a LATER row of `OALParser.precedence` binds tighter than one of an earlier row,
+    on either side: `a ∘ b • c` = `a ∘ (b • c)` and `a • b ∘ c` = `(a • b) ∘ c`, for all operand trees -/
+theorem later_row_binds_tighter_as_in_source (a b c : Expr) (o o' : Tok) (lv lv' : Nat) (as as' : Assoc)
+    (ho : o.kind ∈ binOps.map (·.1)) (ho' : o'.kind ∈ binOps.map (·.1))
+    (hr : rowOf precRows o.kind.name 1 = some (lv, as)) (hr' : rowOf precRows o'.kind.name 1 = some (lv', as'))
+    (hlt : lv < lv') (ha : a.Ok table) (hb : b.Ok table) (hc : c.Ok table) (rest : List Tok)
+    (hs : Stops table 0 rest) :
+    parseExprTop table (render table a (lmin lv as) ++ o :: (render table b (lmin lv' as') ++ o' ::
+        (render table c (rmin lv' as') ++ rest))) = some (.bin a o (.bin b o' c), rest) ∧
+    parseExprTop table (render table a (lmin lv' as') ++ o' :: (render table b (rmin lv' as') ++ o ::
+        (render table c (rmin lv as) ++ rest))) = some (.bin (.bin a o' b) o c, rest) := by
+  have h1 := (prec_table_as_in_source o.kind).1
+  have h2 := (prec_table_as_in_source o'.kind).1
+  rw [if_pos ho, hr] at h1
+  rw [if_pos ho', hr'] at h2
+  exact tighter_binds table table_wellformed a b c o o' lv lv' as as' h1 h2 hlt ha hb hc rest hs
 
 /-! ## 4. the fully parenthesised rendering (every operator node in its own parentheses) -/
 
@@ -409,6 +462,19 @@ example : table.un knot.kind = true ∧ table.bin eqeq.kind = some (3, .nonassoc
 example : parseExprTop table [knot, tk .ID "a", eqeq, tk .ID "b", semi] =
     some (.bin (.un knot va) eqeq vb, [semi]) := by rfl
 example : parseExprTop table [tk .ID "a", times, LP, tk .ID "b", RP, semi] = some (.bin va times vb, [semi]) := by rfl
+
+-- prec_table_as_in_source / same_row_groups_left_as_in_source / later_row_binds_tighter_as_in_source: the row
+-- hypotheses hold of `-` `+` (row 4, left) and of `+` (row 4) / `*` (row 5); a non-operator token has no level
+example : rowOf precRows minus.kind.name 1 = some (4, .left) ∧ rowOf precRows times.kind.name 1 = some (5, .left) ∧
+    rowOf precRows lt.kind.name 1 = some (3, .nonassoc) ∧ rowOf precRows semi.kind.name 1 = none := by decide +kernel
+example := same_row_groups_left_as_in_source e1 vb n3 minus plus 4 (by decide) (by decide) (by decide +kernel)
+  (by decide +kernel) e1_ok vb_ok n3_ok [semi] stops_semi
+example := later_row_binds_tighter_as_in_source va e1 n3 plus times 4 5 .left .left (by decide) (by decide)
+  (by decide +kernel) (by decide +kernel) (by decide) va_ok e1_ok n3_ok [semi] stops_semi
+example : table.bin semi.kind = none := by rw [(prec_table_as_in_source _).1]; decide
+-- a different precedence tuple gives a different table (the interpretation is not constant in the rows)
+example : precInterp [(.left, ["TIMES"]), (.right, ["PLUS"])] [.PLUS, .TIMES, .MOD] =
+    [(.PLUS, 2, .right), (.TIMES, 1, .left)] := by decide +kernel
 
 -- paren_roundtrip
 example : renderFull e1 = [LP, LP, tk .ID "a", plus, tk .ID "b", RP, times, tk .NUMBER "3", RP] := by decide
